@@ -230,5 +230,19 @@ func genSetValCase(r *core.Rand) *pair {
 			u[i] = gen.Value(r, ety, vo)
 		}
 	}
+	if r.Chance(1, 10) {
+		// a dynamically-typed member (DynamicVal or an untyped null) next to typed ones, at any position: SetVal
+		// accepts it (the element type becomes dynamic); whatever the constructor decides from ONE member's type
+		// must not be applied to the others
+		d := cty.DynamicVal
+		if r.Bool() {
+			d = cty.NullVal(cty.DynamicPseudoType)
+		}
+		at := r.Intn(len(u) + 1)
+		if r.Chance(1, 2) {
+			at = 0
+		}
+		u = append(u[:at:at], append([]cty.Value{d}, u[at:]...)...)
+	}
 	return setValPair(u, markInputs(r, u))
 }
